@@ -518,6 +518,11 @@ func Main(args []string) int {
 			e["prog"], e["fork"], e["indep"] = n, 1, true
 			w.Emit(e)
 		})
+		chebApproxEvents(func(e ev) {
+			n++
+			e["prog"], e["fork"], e["indep"] = n, 1, true
+			w.Emit(e)
+		})
 	}
 	res := tr.Result{Events: w.N, Cases: n}
 	res.Print()
